@@ -235,19 +235,22 @@ class DashValidator(DashElement):
         if self.options.save:
             self.save_manifest()
         if self.mode == 'live' and self.prev_manifest is not None:
-            self.attrs.check_equal(
+            # (these are errors of the attributes of the MPD element)
+            mpd_attrs = self.manifest.attrs
+            mpd_attrs.check_equal(
                 self.prev_manifest.id, self.manifest.id,
                 template=r'MPD@id has changed from {} to {}',
                 clause='5.4.1')
-            self.attrs.check_equal(
+            mpd_attrs.check_equal(
                 self.prev_manifest.availabilityStartTime, self.manifest.availabilityStartTime,
                 template=r'availabilityStartTime has changed from {} to {}')
-            age = self.manifest.publishTime - self.prev_manifest.publishTime
-            fmt = (r'Manifest should have updated by now. minimumUpdatePeriod is {0} but ' +
-                   r'manifest has not been updated for {1} seconds')
-            self.attrs.check_less_than(
-                age, 3 * self.manifest.minimumUpdatePeriod,
-                fmt.format(self.manifest.minimumUpdatePeriod, age.total_seconds()))
+            if self.manifest.minimumUpdatePeriod is not None:
+                age = self.manifest.publishTime - self.prev_manifest.publishTime
+                fmt = (r'Manifest should have updated by now. minimumUpdatePeriod is {0} but ' +
+                       r'manifest has not been updated for {1} seconds')
+                mpd_attrs.check_less_than(
+                    age, 3 * self.manifest.minimumUpdatePeriod,
+                    fmt.format(self.manifest.minimumUpdatePeriod, age.total_seconds()))
         await self.manifest.validate()
         if self.options.save and self.options.prefix:
             kids = set()
@@ -306,7 +309,12 @@ class DashValidator(DashElement):
             return
         if not self.elt.check_not_none(self.manifest):
             return
-        next_refresh = self.manifest.publishTime + self.manifest.minimumUpdatePeriod
+        if self.manifest.minimumUpdatePeriod is None:
+            # the manifest is not going to change, wait for more of the
+            # segments it describes to become available
+            next_refresh = self.manifest.now() + datetime.timedelta(seconds=2)
+        else:
+            next_refresh = self.manifest.publishTime + self.manifest.minimumUpdatePeriod
         self.log.debug(
             'publishTime=%s minimumUpdatePeriod=%s nextUpdate=%s',
             self.manifest.publishTime, self.manifest.minimumUpdatePeriod,
